@@ -44,6 +44,7 @@ GROUP: Dict[str, str] = {
     "LinkTrekker_order_links_by_frameworks": "Proofs/SrcTieTrekP.v",
     "LinkTrekker_get_ordered_data": "Proofs/SrcTieTrekP.v",
     "LinkTrekker_order_ordered_ids_by_relation": "Proofs/SrcTieReorderP.v",
+    "ExecutionPlan_validate_required_uuids_are_produced": "Proofs/SrcTieValidP.v",
     # round 2: options
     **{t: "Proofs/SrcTieOptP.v" for t in ("Options_get", "Options_items", "OptionsValidator_validate_can_add_to_group",
                                           "Options_add_to_group", "Options_add", "Features_merge_options")},
@@ -82,6 +83,9 @@ LEMMA_TARGET = {
     **{l: "LinkTrekker_order_ordered_ids_by_relation" for l in (
         "zpm_mem", "zpm_len", "zpm_getitem", "zpm_set", "reorder_loop2_src", "reorder_loop2_latest", "reorder_loop3_src",
         "reorder_loop1_src", "reorder_loop4_src", "zpm_keys", "order_ordered_ids_by_relation_src")},
+    **{l: "ExecutionPlan_validate_required_uuids_are_produced" for l in (
+        "produced_loop_src", "missing_empty", "missing_loop_src", "validate_required_uuids_are_produced_src",
+        "validate_required_uuids_are_produced_model")},
     "options_get_src": "Options_get", "options_items_src": "Options_items",
     "validate_can_add_to_group_src": "OptionsValidator_validate_can_add_to_group",
     "options_add_to_group_src": "Options_add_to_group", "options_add_src": "Options_add",
@@ -588,6 +592,30 @@ def _space_plan(target: str) -> Dict[str, Any]:
                 "defs": f"Definition chk (c : {ty}) := match c with ((pq, orders), Some o) => "
                         "existsb (fun od => PlannerL.list_eqb_by PlannerL.pitem_eqb (PlannerL.order_queue od orders pq) o) "
                         "[PlannerA.ord_id; (fun _ l => rev l)] | _ => false end."}
+    if target == "ExecutionPlan_validate_required_uuids_are_produced":
+        import types
+        from mloda.core.prepare.execution_plan import ExecutionPlan
+        subs = _subsets(3)
+
+        def real_val(i: dict) -> Any:
+            ep = ExecutionPlan.__new__(ExecutionPlan)
+            ep.execution_plan = [types.SimpleNamespace(get_uuids=(lambda u=u: {_uu(x) for x in u}), required_uuids={_uu(x) for x in r})
+                                 for u, r in i["plan"]]
+            ep._validate_steps_do_not_wait_in_a_cycle = lambda: None        # the callee is a parameter of the tie
+            try:
+                ep._validate_required_uuids_are_produced()
+                return True
+            except ValueError:
+                return False
+        one = [[[u], r] for u in range(3) for r in subs]
+        few = [[[u], r] for u in range(3) for r in ([], [0], [1, 2], [2])]
+        plans = [[]] + [[a] for a in one] + [[a, b] for a in one for b in one] + [[a, b, c] for a in few for b in few for c in few]
+        step = lambda k, s: (f"{{| Orch.sid := {cq_nat(k)}; Orch.skind := Orch.KFG; Orch.uuids := {_nl(s[0])}; "  # noqa: E731
+                             f"Orch.req := {_nl(s[1])}; Orch.requested := false |}}")
+        return {"inputs": [{"plan": p} for p in plans], "real": real_val,
+                "term": lambda i, o: f"({cq_list(step(k, s) for k, s in enumerate(i['plan']))}, {_ob(o)})",
+                "type": "list Orch.step * option bool", "req": ["MV.Model.PlannerA"],
+                "defs": OB + "Definition chk (c : list Orch.step * option bool) := ob (snd c) (PlannerA.validate_A (fst c))."}
     if target.startswith("LinkTrekker_"):
         from collections import OrderedDict
         from mloda.core.prepare.resolve_links import LinkTrekker
